@@ -1443,7 +1443,7 @@ def _check_polyroots(c, res):
                 res.bad("polyroots:error_option", "%s returned %r instead of (roots, err)" % (what, type(out)))
                 return res
             out, e = out
-            if not (hasattr(e, "_mpf_") and _finite(e) and e > 0):
+            if not (hasattr(e, "_mpf_") and _finite(e) and (e > 0 or (deg == 0 and e == 0))):
                 res.bad("polyroots:error_option", "%s returned the error estimate %r" % (what, e))
                 return res
             err = float(e)
